@@ -678,3 +678,5 @@ V("MS1-data-type-memoised-on-the-channel-object", "C08", "MS1",
 V("MS1-benign-memo-of-nothing-reassignable", "C08", None,
   ("writer.py", _DT_OLD, "    _void = None\n\n    def _void_type(self):\n        if self._void is None:\n            self._void = Void\n        return self._void\n\n"
    "    @property\n    def data_type(self):\n        try:\n            return numpy_data_types[self.data.dtype]\n"))
+V("BD1-receiver-sized-without-the-offset", "C04", "BD1",
+  ("tdms.py", "            if length is None:\n                num_values = len(self) - offset\n", "            if length is None:\n                num_values = len(self)\n"))
